@@ -28,7 +28,8 @@ type jCase struct {
 	V2      bool   `json:"v2"`   // second verdict on the same object / bytes
 	Panic   bool   `json:"panic"`
 	Err     string `json:"err"`
-	Changed bool   `json:"changed"` // oracle cases: digest differs from the unperturbed one
+	Changed bool   `json:"changed"`       // oracle cases: digest differs from the unperturbed one
+	IDs     []int  `json:"ids,omitempty"` // party identifiers in rank order when they are not 1..N (signers are ranks)
 }
 
 func g1Zero() *math.G1           { z := curve.GenG1.Copy(); z.Sub(curve.GenG1); return z }
@@ -280,9 +281,14 @@ func thresholdCases(d, dOther *dkg, s1, s2 *session) {
 		return
 	}
 	base := jCase{Kind: "case", Cls: "pokthr", N: d.N, T: d.T, L: d.L, Pat: s1.pattern, Pat2: s2.pattern, Path: "bytes"}
+	for i, id := range d.ids {
+		if int(id) != i+1 {
+			base.IDs = u16s(d.ids)
+		}
+	}
 	prove := func(signers []uint16, ws []ps.SignatureWitness) (raw []byte, pan bool, what string) {
 		_, pan, what = guard(func() error {
-			pok := s1.prover.ProveKnowledgeOfSignature(s1.secret, signers, ws)
+			pok := s1.prover.ProveKnowledgeOfSignature(s1.secret, d.idsOf(signers), ws)
 			raw = pok.Bytes()
 			return nil
 		})
@@ -602,6 +608,23 @@ func runPerturb(seed uint64, thorough bool) {
 		requestCases(d, s1, s2, ci%c.N)
 		subs := subsets(c.N, c.T, c.T)
 		pokCases(d, s1, s2, subs[r.intn(len(subs))])
+		thresholdCases(d, dOther, s1, s2)
+	}
+	// the threshold cases once more with party identifiers that are not 1..n (the prover must map them to ranks)
+	for _, idl := range [][]uint16{{2, 3, 5}, {300, 7, 65535, 0}} {
+		T, L := len(idl)-1, 1
+		d := runDKGIDs(idl, T, L, r.next(), identityOrder(len(idl)))
+		dOther := runDKGIDs(idl, T, L, r.next(), identityOrder(len(idl)))
+		if !d.ok() || !dOther.ok() {
+			emit(jCase{Kind: "case", Cls: "setup", N: len(idl), T: T, L: L, Err: "DKG failed"})
+			continue
+		}
+		s1 := runSession(d, patterns[L][0], r.next(), false, false)
+		s2 := runSession(d, patterns[L][1], r.next(), false, false)
+		if !s1.okAll || !s2.okAll {
+			emit(jCase{Kind: "case", Cls: "setup", N: len(idl), T: T, L: L, Err: "session failed"})
+			continue
+		}
 		thresholdCases(d, dOther, s1, s2)
 	}
 	for L := 1; L <= 3; L++ {
